@@ -24,6 +24,27 @@
 #include <limits>
 #include <memory>
 
+// Build-time note: the 12 instantiations of the checker (3 families x 4 item types) contain ~100 checks each. With the
+// stock VF_CHECK every check site inlines an ostringstream (constructor, inserters, cleanup pads) into two huge functions
+// and the TU takes ~110 s to compile under ASan. The local definition below has the same contract (counts the check,
+// builds the same message, ends in vf::fail -> vf::Failure) but keeps the message code in a cold out-of-line lambda.
+namespace {
+uint64_t c07_nchecks = 0;   // flushed into vf::count("checks") once per case
+template <typename L> [[noreturn]] __attribute__((noinline, cold)) void c07_raise(const char* id, const char* cond, int line, L&& l) {
+  std::ostringstream os;
+  l(os);
+  os << "  [" << cond << " @" << __FILE__ << ":" << line << "]";
+  ::vf::fail(id, os.str());
+}
+struct ChecksFlush { ~ChecksFlush() { ::vf::count("checks", c07_nchecks); c07_nchecks = 0; } };
+}  // namespace
+#undef VF_CHECK
+#define VF_CHECK(cond, id, msgexpr)                                                                         \
+  do {                                                                                                      \
+    ++c07_nchecks;                                                                                          \
+    if (!(cond)) c07_raise(id, #cond, __LINE__, [&](std::ostream& vf_os_) { vf_os_ << msgexpr; });         \
+  } while (0)
+
 using namespace datasketches;
 using vf::Case; using vf::Op;
 
@@ -219,7 +240,7 @@ struct Runner {
       VF_CHECK(view.size() == 0 && view.begin() == view.end(), "empty-view", ctx << "sorted view of an empty sketch has " << view.size() << " entries");
       // iterating an empty sketch must yield nothing: begin() == end(). Not iterated when they differ (it would read
       // outside the buffer); recorded and raised at the end of the case so everything else is still checked.
-      vf::count("checks");
+      ++c07_nchecks;
       if (!(q.begin() == q.end())) {
         if (F == F_REQ) defer("iter-empty", "C07|req|iteration|empty sketch: begin() != end()", ctx + "begin() != end() on an empty sketch (0 retained items, iteration would yield entries)");
         else vf::fail("iter-empty", ctx + "begin() != end() on an empty sketch");
@@ -286,7 +307,7 @@ struct Runner {
       if (kll_level0_empty) l0_empty = true;
       bool weights_ok = pow2 && sumw == n;
       for (size_t i = 0; weights_ok && i < I.size(); ++i) if (I[i].w != Vs[i].w) weights_ok = false;
-      vf::count("checks");
+      ++c07_nchecks;
       if (!weights_ok) {
         std::ostringstream os;
         os << ctx << "iterator weights: sum " << sumw << " n " << n << " (retained " << retained << ", powers of two " << pow2 << ", largest view weight " << maxw << ")";
@@ -600,8 +621,8 @@ void dispatch(const Case& cs, bool every) {
     default: dispatch_type<F_CLS>(cs, every); break;
   }
 }
-void prop_main(const Case& cs) { dispatch(cs, true); }
-void prop_large(const Case& cs) { dispatch(cs, false); }
+void prop_main(const Case& cs) { ChecksFlush f; dispatch(cs, true); }
+void prop_large(const Case& cs) { ChecksFlush f; dispatch(cs, false); }
 
 // ------------------------------------------------------------------ generators
 rc::Gen<int64_t> ksel_small() { return rc::gen::weightedOneOf<int64_t>({{6, vf::range(0, 5)}, {3, vf::range(6, 11)}, {1, vf::range(12, 15)}}); }
